@@ -457,7 +457,7 @@ namespace cds { namespace algo {
                 void skip_inactive()
                 {
                     while ( m_pRec && (m_pRec->nState.load( memory_model::memory_order_acquire ) != active
-                                    || m_pRec->op( memory_model::memory_order_relaxed) < req_Operation ))
+                                    || m_pRec->op( memory_model::memory_order_acquire ) < req_Operation ))
                     {
                         m_pRec = static_cast<publication_record_type*>(m_pRec->pNext.load( memory_model::memory_order_acquire ));
                     }
